@@ -73,6 +73,36 @@ class Tools:
                                  os.path.join(ws, "user", "build")], env=env, timeout=timeout)
         return rc, err
 
+    def resident(self, ws, deplog=None):
+        """a frontend process that stays alive between deployments (deptool resident); -> object with deploy() / close()"""
+        import subprocess
+        env = dict(os.environ)
+        env.update(self.env)
+        if deplog:
+            env["VERIF_DEPLOG"] = deplog
+        p = subprocess.Popen([self.deptool, "resident", os.path.join(ws, "user"), os.path.join(ws, "shared"), os.path.join(ws, "user", "build")],
+                             stdin=subprocess.PIPE, stdout=subprocess.PIPE, stderr=subprocess.PIPE, env=env, text=True)
+
+        class Resident:
+            def deploy(self_inner):
+                try:
+                    p.stdin.write("deploy\n")
+                    p.stdin.flush()
+                    line = p.stdout.readline()
+                except BrokenPipeError:
+                    line = ""
+                if not line.startswith("deployed"):
+                    return (p.poll() if p.poll() is not None else -1), (p.stderr.read()[-3000:] if p.poll() is not None else "no answer")
+                return 0, ""
+
+            def close(self_inner):
+                try:
+                    p.stdin.close()
+                    p.wait(timeout=60)
+                except Exception:
+                    p.kill()
+        return Resident()
+
     def startup(self, ws, full=False, deplog=None, timeout=600):
         """the frontends' start-up deployment (API: start_maintenance(full) + join) in a fresh process -> (rc, started)"""
         env = dict(self.env)
